@@ -349,7 +349,7 @@ type gasOp struct{ gw, gu uint64 }
 func histWorker(res *engine.Result, tier string, shard, n int) {
 	depth := 3
 	if tier == "thorough" {
-		depth = 4
+		depth = 6
 	}
 	// (the block gas limit of these fixtures is 100: the last two declare more gas than the limit,
 	// which a block can carry as long as the gas actually used stays below it)
@@ -557,7 +557,7 @@ func Run(tier string) int {
 	return engine.Finish(res, engine.Meta{
 		Property: Prop, Tier: tier, Level: "model_checking", Start: start,
 		Rule:   "fn: full cartesian grid of boundary values through the real CalculateBaseFee vs a math/big reference, monotone on adjacent g; endblock: full (gasWanted,gasUsed,multiplier) grid through the real EndBlock; history: all sequences <= depth of blocks with chosen gas figures through real EndBlock/BeginBlock on 3 parameter fixtures. Non-trivial = grid point off the g=T=unchanged axis / block with distinct (base, g)",
-		Bounds: map[string]any{"history_depth": map[string]int{"quick": 3, "thorough": 4}},
+		Bounds: map[string]any{"history_depth": map[string]int{"quick": 3, "thorough": 6}},
 		Assumptions: []string{
 			"monotonicity is required only where base >= floor(minGasPrice): below it the statement's own clauses are incompatible with monotonicity (recorded as an observation)",
 			"target T = 0 (block gas limit < elasticity) is outside the statement's domain; the implementation divides by zero there (observation)",
